@@ -97,7 +97,16 @@ def report_problems(ctx, rule, site, allow=()):
 
 
 def guards_ok(ctx, rule, site, allowed=lambda g, pol: False):
-    bad = [(g, p) for g, p in site.fact.guards if not allowed(g, p)]
+    # (a test that the very list an enclosing loop walks is non-empty -- `if rows:` around / inside `for r in rows:` -- holds for every
+    # iteration: it is no condition on the term)
+    iters = set()
+    for lp in site.fact.loops:
+        it = simp(lp.iter)
+        iters.add(it)
+        if it[0] == "call" and it[1] in (("global", "enumerate"), ("global", "list"), ("global", "tuple")) and len(it[2]) >= 1:
+            iters.add(simp(it[2][0]))
+    lens = {("call", ("global", "len"), (it,), ()) for it in iters}
+    bad = [(g, p) for g, p in site.fact.guards if not allowed(g, p) and not (p is True and (simp(g) in iters or simp(g) in lens))]
     if bad:
         ctx.bad(rule, f"{site_key(site)}:conditional", where(site),
                 "term is emitted only under a condition: " + "; ".join(("" if p else "not ") + show(g)[:90] for g, p in bad),
@@ -1164,5 +1173,6 @@ BENIGN = [
         {"file": T, "old": 'rhs[n_spec] += f" - {crate_sym}[{cidx}] * {rsym_mul}"', "new": 'rhsparts[n_spec].append(f" - {crate_sym}[{cidx}] * {rsym_mul}")'},
         {"file": T, "old": '        lhs = [f"ydot[IDX_{x.alias}]" for x in species]\n', "new": '        rhs = ["".join(parts) for parts in rhsparts]\n        lhs = [f"ydot[IDX_{x.alias}]" for x in species]\n'}]},
     {"name": "create-species-guard-clauses-set-lookup", "file": "naunet/component.py", "old": "        if species_name and species_name not in Species.known_pseudoelements():\n            return Species(species_name, **kwargs)\n\n        return None\n", "new": "        if not species_name:\n            return None\n        pseudo = frozenset(Species.known_pseudoelements())\n        if species_name in pseudo:\n            return None\n        return Species(species_name, **kwargs)\n"},
+    {"name": "loss-loop-guarded-by-nonempty-list", "file": T, "old": "            for specidx in rspecidx:\n                rhs[specidx] += f\" - {rate_sym}[{rl}]*{rsym_mul}\"\n", "new": "            if rspecidx:\n                for specidx in rspecidx:\n                    rhs[specidx] += f\" - {rate_sym}[{rl}]*{rsym_mul}\"\n"},
     {"name": "template-reindent", "file": TEMPLATES["cvode"], "old": "    {% for eq in ode.fex -%}\n        {{ eq | stmwrap(80, 8) }}", "new": "    {% for eq in ode.fex -%}\n      {{ eq|stmwrap(80, 6) }}"},
 ]
